@@ -77,6 +77,12 @@ package vm
 //@ func (Element).Item
 //@ inline
 
+//@ func (Element).Bytes
+//@ opt uncovered 1
+//@ requires[typeinv] stackitem.wfItem(e.value)
+//@ requires[nopanic] is(e.value, *stackitem.ByteArray)
+//@ ensures same(result, *e.value.(*stackitem.ByteArray))
+
 //@ func toInt
 //@ opt uncovered 2
 //@ requires i != nil
@@ -575,3 +581,16 @@ package vm
 //@ ensures[value] depth(v) == old(depth(v)) + 1 && topInt(v, old(depth(v)))
 //@ ensures[rest] forall(j, 0, depth(v) - 1, v.estack.elems[j] == old(v.estack.elems[j]))
 //@ ensures[err] v.refs <= MaxStackSize ==> err == nil
+
+// PICKITEM on a byte string with an integer key: FAULT only for an index that is not a 32-bit
+// integer; an index outside 0..len-1 raises the catchable exception (no Go panic), one inside
+// pushes that byte as an integer.
+//@ cases (*VM).execute
+//@ case PICKITEM_BYTES
+//@ opt inline-defers yes
+//@ requires op == opcode.PICKITEM && v.getPrice == nil && wfStack(v.estack) && depth(v) >= 2 && is(item(v, 0), *stackitem.BigInteger) && is(item(v, 1), *stackitem.ByteArray)
+//@ panics-if !i32(x0(v))
+//@ call (*VM).throw requires[range] index < 0 || index >= len(arr)
+//@ call (*VM).throw requires[arr] same(arr, old(*item(v, 1).(*stackitem.ByteArray)))
+//@ ensures[value] old(0 <= x0(v) && x0(v) < len(*item(v, 1).(*stackitem.ByteArray))) ==> depth(v) == old(depth(v)) - 1 && topInt(v, old((*item(v, 1).(*stackitem.ByteArray))[x0(v)]))
+//@ ensures[thrown] old(i32(x0(v))) && !old(0 <= x0(v) && x0(v) < len(*item(v, 1).(*stackitem.ByteArray))) ==> ncalls("(*VM).throw") == 1
